@@ -67,7 +67,8 @@ pub enum Out {
 /// Executes one operation. `last_peek` carries the most recent peek result for AdvanceToPeeked.
 pub fn exec_op(it: &mut FindMatches, op: &Op, last_peek: &mut Option<Peeked>) -> Out {
     match op {
-        Op::Next => Out::Next(it.next().map(Tok::from)),
+        // Iterator::next and the public next_match are the same operation by contract; both are used
+        Op::Next => Out::Next(if it.offset() % 2 == 0 { it.next() } else { it.next_match() }.map(Tok::from)),
         Op::PeekN(n) => {
             let p: Peeked = it.peek_n(*n).into();
             *last_peek = Some(p.clone());
